@@ -51,6 +51,42 @@ fn main() {
         }
         return;
     }
+    if args.len() >= 3 && args[1] == "cbor" {
+        // helper for the hub runners: decode hex-encoded CBOR frame bodies with the REAL ciborium + wire.rs types
+        use std::io::BufRead;
+        let unhex = |t: &str| -> Vec<u8> {
+            if t == "-" || t.is_empty() { Vec::new() } else { (0..t.len() / 2).map(|i| u8::from_str_radix(&t[2 * i..2 * i + 2], 16).unwrap_or(0)).collect() }
+        };
+        let hx = |b: &[u8]| -> String { if b.is_empty() { "-".into() } else { b.iter().map(|x| format!("{x:02x}")).collect() } };
+        for line in std::io::stdin().lock().lines() {
+            let line = line.expect("stdin");
+            let body = unhex(line.trim());
+            if args[2] == "req" {
+                let r: Result<cli::wire::Request, _> = ciborium::de::from_reader(&body[..]);
+                match r {
+                    Ok(cli::wire::Request::Hello { version }) => println!("hello:{version}"),
+                    Ok(cli::wire::Request::List) => println!("list"),
+                    Ok(cli::wire::Request::Get { path }) => println!("get:{}", hx(path.as_bytes())),
+                    Ok(cli::wire::Request::Put { path, expected, len, hash }) => println!("put:{}:{}:{}:{}", hx(path.as_bytes()), expected.map_or("-".to_string(), |h| hx(&h)), len, hx(&hash)),
+                    Ok(cli::wire::Request::Delete { path, expected }) => println!("delete:{}:{}", hx(path.as_bytes()), expected.map_or("-".to_string(), |h| hx(&h))),
+                    Ok(cli::wire::Request::Bye) => println!("bye"),
+                    Err(_) => println!("ERR"),
+                }
+            } else {
+                let r: Result<cli::wire::Response, _> = ciborium::de::from_reader(&body[..]);
+                match r {
+                    Ok(cli::wire::Response::Hello { version }) => println!("hello:{version}"),
+                    Ok(cli::wire::Response::Fingerprints(m)) => println!("fps:{}", if m.is_empty() { "-".to_string() } else { m.iter().map(|(k, v)| format!("{}={}", hx(k.as_bytes()), hx(&v.blake3))).collect::<Vec<_>>().join(";") }),
+                    Ok(cli::wire::Response::Content { len, hash }) => println!("content:{len}:{}", hx(&hash)),
+                    Ok(cli::wire::Response::PutResult { committed, current }) => println!("put:{}:{}", committed as u8, current.map_or("-".to_string(), |h| hx(&h))),
+                    Ok(cli::wire::Response::DeleteResult { deleted, current }) => println!("del:{}:{}", deleted as u8, current.map_or("-".to_string(), |h| hx(&h))),
+                    Ok(cli::wire::Response::Error(e)) => println!("error:{}", e.replace(' ', "_")),
+                    Err(_) => println!("ERR"),
+                }
+            }
+        }
+        return;
+    }
     if args.len() < 5 {
         eprintln!("usage: copia-corr <prop> <quick|thorough> <seed> <outdir>");
         std::process::exit(2);
